@@ -17,7 +17,12 @@ def run(ctx):
                 "(one per path through the three stages of serialize_to_json_utf8) + random nested values (any key kind, cycles "
                 "through lists / dicts / tuples, opaque objects with working / failing / unreprably failing repr, 2^k integers, "
                 "3000-5000 levels) through serialize_wrapper / serialize_header / serialize_to_json_utf8, compared with the model's "
-                "predicted read-back value; plus a whole file of them through get_events (plain and .bz2)")
+                "predicted read-back value; plus a whole file of them through get_events (plain and .bz2); (e) reader framing: "
+                "histories written by LogFileObserver (plain, .bz2) and both incident reporters, padded (two passes) so that event "
+                "lines end exactly at 2^9..2^20 (thorough 2^22) and 10^3..10^6 bytes from the start of the file / from behind the "
+                "magic line, or one byte later (newline first in the next block), files that end at such an offset, one line "
+                "longer than 1 MiB, messages holding every character str.splitlines splits on; non-trivial = at least one line "
+                "ends at such an offset; (f) fixed corpus histories, among them set_buffer_size after the history holds events")
     ctx.assumptions = ["CPython's json module is modelled, not verified: which values the encoder refuses (keys other than "
                        "str/int/float/bool/None -> TypeError, containers that contain themselves and integers too large to print "
                        "-> ValueError, nesting beyond the recursion budget -> RecursionError), that it consults default= for "
@@ -57,6 +62,7 @@ def run(ctx):
     wruns = timed("writers", writer_family, ctx, impl)
     fines = timed("fine", fine_traces, ctx, impl)
     jcases = timed("json", json_family, ctx, impl)
+    timed("framing", reader_framing, ctx, impl)
     timed("hostile", hostile_calls, ctx, impl)
     fcases = timed("format", format_total, ctx, impl)
     rruns = timed("reentrant", reentrant_trees, ctx, impl)
@@ -1654,6 +1660,169 @@ def json_family(ctx, impl):
                          % (fn, len(wrote), len(back), k, back[k:k + 1], wrote[k:k + 1]), replay=dict(file=fn, events=len(wrote)))
             ctx.case(["json-file", fn, len(lines)], nontrivial=True)
     return cases
+
+
+# ====================================================================== the reader's framing: lines against block boundaries
+# get_events has to cut the (decompressed) byte stream into the lines the writers produced, however the stream is read.
+# Family: a reader that works block by block (any block size, counted from the start of the file or from behind the magic
+# line) and mistreats a line that ENDS exactly at a block boundary, a line whose newline is the FIRST byte of the next block,
+# a line longer than several blocks, or a file that ends exactly at a boundary.  Every history below is written by the real
+# writers (LogFileObserver plain / .bz2, both incident reporters) and padded so that lines end exactly at the offsets.
+FRAMING_MAXPAD = 20000
+
+
+def framing_targets(base, delta, top, decimal=False):
+    """offsets at which a line has to end: base + B (+ delta) for every block size B"""
+    if decimal:
+        sizes = [1000, 3000, 10000, 30000, 100000, 300000, 1000000]
+    else:
+        sizes = [2 ** k for k in range(9, 23)]
+    return [base + b + delta for b in sizes if b <= top]
+
+
+def framing_lines(raw):
+    """[(length including the newline, cid of the event on that line or None)]"""
+    out = []
+    for ln in raw.split(b"\n")[:-1]:
+        cid = None
+        if ln.startswith(b"{"):
+            try:
+                rec = json.loads(ln.decode("utf-8"))
+                if "d" in rec and isinstance(rec["d"].get("cid"), int) and rec["d"]["cid"] >= 0:
+                    cid = rec["d"]["cid"]
+            except ValueError:
+                pass
+        out.append((len(ln) + 1, cid))
+    return out
+
+
+def framing_plan(lines, targets, n):
+    """pads per event such that the lines of the second pass end exactly at as many targets as possible (greedy, in file
+    order; a line grows by exactly one byte per padding character) -> (pads, targets that will be hit, index after the last
+    padded event)"""
+    pads = [0] * n
+    reserve = 2 * max(l for l, c in lines) + 64
+    cum, ti, hit, last = 0, 0, [], 0
+    for length, cid in lines:
+        while ti < len(targets) and targets[ti] < cum + length:
+            ti += 1
+        if cid is None or ti >= len(targets):
+            cum += length
+            continue
+        gap = targets[ti] - cum - length
+        if gap <= FRAMING_MAXPAD:
+            pad = gap
+            hit.append(targets[ti])
+            ti += 1
+            last = cid + 1
+        else:
+            pad = min(FRAMING_MAXPAD, gap - reserve)
+        pads[cid] = pad
+        cum += length + pad
+    return pads, hit, last
+
+
+# (name, writer, trigger_at, base: 0 = offsets from the start of the file / 1 = from behind the magic line, delta, decimal,
+#  file ends at the last offset, long line)
+FRAMING_FIXED = [
+    ("logfile/behind-magic", "logfile", None, 1, 0, False, False, 0),
+    ("logfile/from-start", "logfile", None, 0, 0, False, False, 0),
+    ("logfile/newline-first-in-block", "logfile", None, 1, 1, False, False, 0),
+    ("logfile/newline-first-in-block-from-start", "logfile", None, 0, 1, False, False, 0),
+    ("logfile/decimal-blocks", "logfile", None, 1, 0, True, False, 0),
+    ("logfile/decimal-blocks-from-start", "logfile", None, 0, 0, True, False, 0),
+    ("logfile/ends-at-boundary", "logfile", None, 1, 0, False, True, 0),
+    ("logfile/ends-at-boundary-from-start", "logfile", None, 0, 0, False, True, 0),
+    ("logfile/line-longer-than-blocks", "logfile", None, 1, 0, False, False, 1100000),
+    ("incident/behind-magic", "incident", None, 1, 0, False, False, 0),
+    ("incident/from-start", "incident", None, 0, 0, False, False, 0),
+    ("incident-trailing/behind-magic", "incident", "late", 1, 0, False, False, 0),
+    ("incident-trailing/newline-first-in-block", "incident", "late", 1, 1, False, False, 0),
+]
+
+
+def framing_case(ctx, impl, name, writer, trigger_at, targets, n, ends_exact=False, long_line=0):
+    from foolscap.logging import flogfile
+    magic = len(flogfile.MAGIC)
+    trig = None if trigger_at is None else max(1, n - 95)      # the rest are trailing events (limit 100)
+    # ---- first pass: where do the lines end without padding?
+    pads0 = [0] * n
+    if long_line:
+        pads0[1] = long_line
+    paths, seen = impl.write_framing_history("framing", writer, pads0, trig)
+    if not paths:
+        ctx.fail("oracle/incident-lost", "framing history %s: no incident file was published" % name, replay=dict(case=name))
+        return
+    raw = impl.raw_content(sorted(paths.items())[0][1])
+    pads, hit, last = framing_plan(framing_lines(raw), targets, n)
+    for i, p_ in enumerate(pads0):
+        pads[i] += p_
+    if ends_exact:
+        pads = pads[:last]
+    # ---- second pass: the padded history, read back with get_events
+    paths, seen = impl.write_framing_history("framing", writer, pads, None if trig is None else min(trig, len(pads)))
+    for label, path in sorted(paths.items()):
+        raw = impl.raw_content(path)
+        ends = [t for t in hit if raw[t - 1:t] == b"\n"]
+        if ends != hit:
+            ctx.extra["framing_alignment_missed"] = ctx.extra.get("framing_alignment_missed", 0) + 1
+        for t in ends:
+            ctx.hist("framing_line_ends_at", "other (random block sizes)" if name.startswith("random/") else t)
+        what = "%s (%s): %d events, file of %d bytes%s, lines end at offsets %r" % (
+            name, label, len(pads), len(raw), " (ends exactly at the last offset)" if ends_exact and ends and ends[-1] == len(raw) else "",
+            ends)
+        replay = dict(case=name, writer=writer, file=label, event_message="'e%04d \\u00e9\\r\\x0b\\x0c\\x1c\\x1e\\x85\\u2028\\u2029 ' % i + 'x' * pad, level=OPERATIONAL, facility='framing', cid=i",
+                      pads=pads,
+                      trigger_before_event=trig, line_end_offsets=ends, magic_length=magic, file_size=len(raw))
+        ctx.case(["framing", name, label, pads], nontrivial=bool(ends))
+        ctx.hist("framing_writer", label)
+        if label == "incident":
+            want = sorted(([e["num"], e["level"], e["message"]] for e in seen), key=lambda v: v[0])
+        else:
+            want = [[e["num"], e["level"], e["message"]] for e in seen]
+        try:
+            recs = list(flogfile.get_events(path))
+        except Exception as e:
+            ctx.fail("oracle/written-file-unreadable", "%s cannot be read back with flogfile.get_events: %s: %s"
+                     % (what, type(e).__name__, str(e)[:200]), replay=replay)
+            continue
+        got = [[r["d"].get("num"), r["d"].get("level"), r["d"].get("message")] for r in recs if isinstance(r, dict) and "d" in r]
+        hdr = recs[0].get("header") if recs and isinstance(recs[0], dict) else None
+        if got != want or not isinstance(hdr, dict):
+            k = next((i for i, (a, b) in enumerate(zip(got, want)) if a != b), min(len(got), len(want)))
+            ctx.fail("oracle/written-file-differs", "%s: %d events were written, %d read back%s; first difference at #%d: %s / %s"
+                     % (what, len(want), len(got), "" if isinstance(hdr, dict) else ", no header record", k,
+                        repr(got[k:k + 1])[:120], repr(want[k:k + 1])[:120]), replay=replay)
+        elif label == "incident":
+            t = hdr.get("trigger")
+            tw = [[e["num"], e["level"], e["message"]] for e in seen if e.get("cid") == -1]
+            if not isinstance(t, dict) or [[t.get("num"), t.get("level"), t.get("message")]] != tw:
+                ctx.fail("oracle/readback-differs", "%s: the header's trigger reads back as %s, emitted %r" % (what, repr(t)[:200], tw),
+                         replay=replay)
+
+
+def reader_framing(ctx, impl):
+    from foolscap.logging import flogfile
+    magic = len(flogfile.MAGIC)
+    with impl.E.quiet():
+        for name, writer, trig, base, delta, decimal, ends_exact, long_line in FRAMING_FIXED:
+            # quick: block sizes up to 1 MiB for the plain/.bz2 log file, 256 KiB elsewhere
+            top = 2 ** 20 if (name in ("logfile/behind-magic", "logfile/from-start") or decimal) else 2 ** 18
+            if ctx.tier != "quick":
+                top = 2 ** 22
+            targets = framing_targets(base * magic, delta, top, decimal)
+            n = 40 + 2 * len(targets) + top // FRAMING_MAXPAD + (95 if trig else 0)
+            framing_case(ctx, impl, name, writer, trig, targets, n, ends_exact, long_line)
+        # thorough: block sizes that are no round numbers, several multiples of them, random short lines in between
+        for i in range(ctx.n(0, 60)):
+            rng = ctx.rng
+            b = rng.choice([rng.randrange(600, 5000), rng.randrange(5000, 70000), 4096 * rng.randint(1, 40), 1 << rng.randint(9, 18)])
+            base = rng.choice([0, magic])
+            delta = rng.choice([0, 0, 0, 1])
+            targets = [base + b * k + delta for k in range(1, rng.randint(2, 9))]
+            writer, trig = rng.choice([("logfile", None), ("logfile", None), ("incident", None), ("incident", "late")])
+            n = 40 + 2 * len(targets) + targets[-1] // FRAMING_MAXPAD + (95 if trig else 0) + rng.randint(0, 30)
+            framing_case(ctx, impl, "random/%s block %d from %d +%d" % (writer, b, base, delta), writer, trig, targets, n)
 
 
 STAGE_EXC = {0: "TypeError", 1: "ValueError", 2: "RecursionError", 3: "RuntimeError"}
